@@ -166,8 +166,39 @@ claim("C15", "model_checking", "TLC checks Scope.tla -- the walk loop and the di
       "TLA+ spec Scope.tla model-checked with TLC; spec->impl replay of emitted scenarios on real directory trees via the CLI",
       "DESIGN.md §6 C15")
 
-for pid in ["C04", "C16", "C17"]:
-    NA[pid] = "check not built yet in this round (planned, see DESIGN.md §6); not a limit of the technique"
+claim("C04", "exploration", "The specification's terminal states are Report (exit 0/1) and Error (exit 1): there is no crash "
+      "state, and every run made for any property is also checked against that (trace specs reject other endings). "
+      "Soup.tla is the generator: TLC enumerates EVERY token sequence up to MaxLen per language family (comment "
+      "delimiters, tag fragments incl. an unterminated quoted attribute, quotes, brackets, <, >, newline, CR, 2-byte / "
+      "NBSP / emoji / combining characters) and per diff line class (headers, hunk headers, body lines that look like "
+      "headers, multi-byte -/+ pairs); each soup is parsed under the suffixes of its family in scan, list and diff mode "
+      "(diff = the soup against itself with one character changed into a sibling sharing its leading UTF-8 bytes) with "
+      "panic capture and a watchdog; a sample runs through the real CLI (exit status 0/1 only).",
+      "Exploration, not a decision procedure over all UTF-8 strings: exhaustive over a finite token space. Diffs that "
+      "git cannot produce (a +++ header without ---) are excluded: the unidiff dependency panics on them.",
+      "TLA+ spec Soup.tla as exhaustive generator (TLC) + terminal-state contract; replay of every soup in-process "
+      "(catch_unwind, watchdog) and a CLI sample", "DESIGN.md §6 C04")
+claim("C16", "model_checking", "TLC enumerates every base name (<= MaxComp dot-separated components over a component alphabet "
+      "with registered, upper-cased, compound and unknown suffixes, empty components) x one of 7 -E remappings of "
+      "Grammar.tla and checks the dot-walk (TrySuffix / FallbackWholeName) against GrammarOf, with the 39-entry table as "
+      "a constant of the specification; each name is created in directories whose names contain dots, several files per "
+      "run, with a body that is a valid block only in the expected family's comment syntax and an unclosed tag in the "
+      "other families' syntaxes; plus every registered suffix in the shapes the statement lists.",
+      "Grammars are distinguished at the level of comment-syntax families (c / hash / xml / css / sql), not within a "
+      "family. Gray: which of two different candidate suffixes wins is observable only through compound remap keys.",
+      "TLA+ spec Grammar.tla model-checked with TLC; spec->impl replay of every emitted name (bwexec, CLI sample)",
+      "DESIGN.md §6 C16")
+claim("C17", "model_checking", "For every value of BLOCKWATCH_LUA_MODE a probe script run by the real binary records, from "
+      "inside the interpreter, the object graph reachable from _G, the string metatable and every metatable, and "
+      "exercises each dangerous capability; LuaCaps.tla models every script as a sequence of primitive moves (index a "
+      "held table, take a metatable) over that graph -- TLC reaches the fixed point of what any script can hold -- and "
+      "checks the per-mode policy: allowed globals, capability class of every held function (unclassified = "
+      "violation), forbidden capabilities do not work, granted ones do, the probe's closure equals the fixed point.",
+      "Trusted: Lua has no ambient authority (a script can only use what it can reach); the Lua C implementation of "
+      "the allow-listed functions; crafted bytecode given to load is out of scope.",
+      "TLA+ spec LuaCaps.tla checked with TLC over the object graph recorded from the real interpreter (impl->spec), "
+      "per mode value", "DESIGN.md §6 C17")
+
 
 
 def main():
@@ -216,7 +247,7 @@ def main():
     print("wrote MANIFEST.json: %d checks, %d not_applicable" % (len(checks), len(m["not_applicable"])))
 
 
-HOOK_COMMITS = ["26c7fa0"]
+HOOK_COMMITS = ["26c7fa0", "46cd409"]
 
 if __name__ == "__main__":
     main()
